@@ -121,6 +121,106 @@ func scenC02(run *vlab.Run, sx, tmp string) {
 	}
 }
 
+// c02live: exclusion combined with live mode (arp --live X --exclude F): no pass may address an excluded host or
+// anything outside the subnet; judged on every frame of at least two passes, then SIGINT.
+func init() { scenarios["c02live"] = scenC02Live }
+
+func scenC02Live(run *vlab.Run, sx, tmp string) {
+	rng := run.Rand("c02live")
+	n := run.Pick(8, 48)
+	for i := 0; i < n; i++ {
+		if !run.Mine(i) {
+			continue
+		}
+		bits := 26 + rng.Intn(4)
+		base := (0x0a090000 | rng.Uint32()&0xff00) &^ (1<<uint(32-bits) - 1)
+		size := uint32(1) << uint(32-bits)
+		subnet := fmt.Sprintf("%s/%d", ipS(base), bits)
+		var exl []string
+		for k := 0; k < 1+rng.Intn(3); k++ {
+			switch rng.Intn(3) {
+			case 0:
+				exl = append(exl, ipS(base+uint32(rng.Intn(int(size)))))
+			case 1:
+				exl = append(exl, fmt.Sprintf("%s/%d", ipS(base+uint32(rng.Intn(int(size)))&^3), 30))
+			default:
+				exl = append(exl, fmt.Sprintf("%s/%d", ipS(base), bits-1-rng.Intn(3))) // wider than the target's lower half / the target itself
+				exl[len(exl)-1] = fmt.Sprintf("%s/%d", ipS(base+size/2), bits+1)
+			}
+		}
+		exclude := strings.Join(exl, "\n") + "\n"
+		ex, _ := oracle.RefExcludeFile(exclude)
+		perPass := 0
+		for a := base; a < base+size; a++ {
+			if !oracle.Excluded(a, ex) {
+				perPass++
+			}
+		}
+		if perPass == 0 {
+			continue
+		}
+		interval := 100 + 100*rng.Intn(2)
+		args := []string{"arp", "--json", "-i", "tap0", "--srcip", foreignSrcIP}
+		// the two options in both orders
+		if i%2 == 0 {
+			args = append(args, "--live", fmt.Sprintf("%dms", interval), "--exclude", writeFile(tmp, "exclude.txt", exclude))
+		} else {
+			args = append(args, "--exclude", writeFile(tmp, "exclude.txt", exclude), "--live", fmt.Sprintf("%dms", interval))
+		}
+		args = append(args, subnet)
+		run.Case(fmt.Sprintf("c02live%03d", i), map[string]interface{}{"argv": args, "exclude": exclude})
+		var mu sync.Mutex
+		nTx := 0
+		res := RunCase(sx, &CaseSpec{Args: args, Setup: commonWorld("tap"), Timeout: 60 * time.Second,
+			OnTx: func(cr *CaseRun, d *Dev, frame []byte) {
+				if _, _, _, ok := decodeProbe("arp", frame, oracle.LinkEthernet); !ok {
+					return
+				}
+				mu.Lock()
+				nTx++
+				fire := nTx == 2*perPass+1 || nTx == 40*int(size) // a scan that ignores the exclusion reaches this too
+				mu.Unlock()
+				if fire {
+					cr.Signal(syscall.SIGINT)
+				}
+			}})
+		run.Eval(1)
+		if !baseChecks(run, res, args, false) {
+			continue
+		}
+		frames, bad := 0, 0
+		example := ""
+		for _, e := range res.Events {
+			if e.Kind != "tx" {
+				continue
+			}
+			_, a, _, ok := decodeProbe("arp", e.Data, oracle.LinkEthernet)
+			if !ok {
+				continue
+			}
+			frames++
+			switch {
+			case a < base || a >= base+size:
+				bad++
+				example = ipS(a) + " (outside " + subnet + ")"
+			case oracle.Excluded(a, ex):
+				bad++
+				example = ipS(a) + " (excluded)"
+			}
+		}
+		if bad > 0 {
+			run.Violation("excluded-address-probed:arp-live", fmt.Sprintf("%d of %d ARP requests of a live scan were addressed to hosts that are excluded or outside the target, e.g. %s; exclude file %q: sx %s", bad, frames, example, exclude, strings.Join(args, " ")), args)
+		}
+		if frames < 2*perPass {
+			run.Inconclusive(fmt.Sprintf("only %d frames seen, two passes are %d", frames, 2*perPass))
+			continue
+		}
+		run.Count("live_exclusion_runs", 1)
+		run.Count("live_exclusion_frames_checked", int64(frames))
+		run.Distinct(strings.Join(args, " ") + exclude)
+	}
+}
+
 // ---------------------------------------------------------------------------
 
 func scenC18(run *vlab.Run, sx, tmp string) {
